@@ -670,6 +670,11 @@ def model_checking(run, tier):
         "UrosBus/free+InOrder(counterexample)": ("UrosBusMC.tla", "UrosBus_free_order.cfg", True),
         "EstimatorNode": ("EstimatorNode.tla", f"EstimatorNode_{mc}.cfg", False),
     }
+    if tier == "thorough":
+        # liveness under fairness, no state constraint, no VIEW (spec/UrosBusLive.tla): a design-level
+        # statement (every publish returns, every owed message arrives, time is not Zeno, rows keep
+        # coming); it has no code binding of its own, so a failure is a machinery error, not a verdict
+        jobs["UrosBusLive/fairness"] = ("UrosBusLive.tla", "UrosBusLive.cfg", False)
     res = {}
     with cf.ThreadPoolExecutor(len(jobs)) as ex:
         futs = {name: ex.submit(run_tlc, spec, cfg, workdir=run.workdir, workers=8, allow_violation=allow, timeout=3000)
